@@ -287,6 +287,12 @@ class Families:
     n, pq = self.rng.choice(self.w.keypair_keys)
     return [Key('keypair-same-msb', n + 2 * self.rng.randrange(1, 50))]
 
+  def keypair_odd(self):
+    # a table prefix in front of a modulus of odd size: the generator cannot have produced it
+    msb = self.rng.choice(sorted(self.w.table))
+    sh = self.rng.choice([1, 65, 191, 449, 961])
+    return [Key('keypair-prefix-odd', (msb << sh) | self.rng.getrandbits(sh) | 1)]
+
   def roca(self):
     p, _ = c06.roca_prime(self.rng, 256, self.w.roca_m)
     q, _ = c06.roca_prime(self.rng, 256, self.w.roca_m)
@@ -497,7 +503,7 @@ class World:
     bl = n.bit_length()
     if bl >= 64:
       meta = self.table.get(n >> (bl - 64))
-      if meta is not None:
+      if meta is not None and bl % 2 == 0:      # odd sizes: generator not consulted (D21)
         try:
           seed = c06.seed_from_meta_ref(meta)
         except Exception:  # noqa  (malformed metadata: the model raises before asking)
@@ -668,10 +674,22 @@ def run_batch(w, spy, b, keys, tag, default_params=False):
   spy.calls = []
   spy.frames = [[(a.test_info, ('a', i)) for i, a in enumerate(arts)]]
   exc, ret = None, None
+  import signal
+
+  def _alarm(*_):
+    raise TimeoutError('CheckAllRSA did not return')
+  guard = any(k.tag.startswith('keypair-prefix-odd') for k in keys)
+  if guard:                       # D21: the keypair generator never returns for an odd size
+    old_h = signal.signal(signal.SIGALRM, _alarm)
+    signal.setitimer(signal.ITIMER_REAL, 120)
   try:
     ret = w.paranoid.CheckAllRSA(arts)
   except Exception as e:  # noqa
     exc = e
+  finally:
+    if guard:
+      signal.setitimer(signal.ITIMER_REAL, 0)
+      signal.signal(signal.SIGALRM, old_h)
   spy.frames = []
   calls = spy.calls
   if exc is not None:
@@ -721,7 +739,7 @@ def correspondence(rep, rng, tier):
     b.let('T', c06.T(w.table))
     single = [fam.healthy, fam.oddbits, fam.exponent, fam.fermat, fam.hlbe, fam.pattern, fam.smooth,
               fam.smooth_both, fam.lowweight, fam.leading_ones, fam.sud, fam.unseeded, fam.unseeded_odd,
-              fam.degenerate, fam.openssl, fam.keypair, fam.keypair_near, fam.roca,
+              fam.degenerate, fam.openssl, fam.keypair, fam.keypair_near, fam.keypair_odd, fam.roca,
               fam.roca_variant]
     groups = [fam.duplicate, fam.shared, fam.triangle, fam.nested, fam.gcdn1, fam.gcdn1_small]
 
